@@ -15,5 +15,6 @@ func controlsC14() []Control {
 		{Name: "all-in raise bumps raises before actions are counted", Expect: "R2", Mutate: replaceIn("(*tableEngine).PlayerAllin", "playerState.GameStatistics.ActionTimes++\n", "", 0)},
 		{Name: "chance statistics refreshed only when the table is not playing", Expect: "R6", Mutate: replaceIn("(*tableEngine).updateGameState", "if te.table.State.Status == TableStateStatus_TableGamePlaying {", "if te.table.State.Status != TableStateStatus_TableGamePlaying {", 0)},
 		{Name: "3-bet chance re-evaluated on every state", Expect: "R7", Mutate: replaceIn("(*tableEngine).updateCurrentPlayerGameStatistics", "if te.is3BChance(currentGamePlayerIdx, gs) {\n\t\t\tcurrentPlayer.GameStatistics.Is3BChance = true\n\t\t}", "currentPlayer.GameStatistics.Is3BChance = te.is3BChance(currentGamePlayerIdx, gs)", 0)},
+		{Name: "3-bet flag computed for everyone but the raiser", Expect: "R4", Mutate: replaceIn("(*tableEngine).refreshThreeBet", "if i == playerIdx {\n\t\t\t\tte.table.State.PlayerStates[i].GameStatistics.Is3B = true\n\t\t\t} else {\n\t\t\t\tte.table.State.PlayerStates[i].GameStatistics.Is3B = false\n\t\t\t}", "te.table.State.PlayerStates[i].GameStatistics.Is3B = i != playerIdx", 0)},
 	}
 }
